@@ -12,6 +12,15 @@ def _close(a, b, rel=1e-12):
     return abs(a - b) <= rel * max(1.0, abs(a), abs(b))
 
 
+def _close_rel(a, b, rel=1e-12):
+    """Purely relative (stored values: a rate constant of 1e-14 must survive as well as one of order 1)."""
+    if math.isnan(a) and math.isnan(b):
+        return True
+    if not (math.isfinite(a) and math.isfinite(b)):
+        return a == b
+    return abs(a - b) <= rel * max(abs(a), abs(b))
+
+
 def _vec(model, state):
     s2i = model.get_species2index()
     x = np.zeros(len(s2i))
@@ -38,7 +47,7 @@ def compare(A, B, states, times=(0.0,), vols=(1.0, 2.5), check_rules=True, seed=
     if set(sa) != set(sb):
         return [(("species_set",), {"a": sorted(sa), "b": sorted(sb)})]
     for s in sa:
-        if not _close(float(sa[s]), float(sb[s])):
+        if not _close_rel(float(sa[s]), float(sb[s])):
             out.append((("initial_value",), {"species": s, "a": float(sa[s]), "b": float(sb[s])}))
             return out
     pa, pb = A.get_parameter_dictionary(), B.get_parameter_dictionary()
@@ -46,7 +55,7 @@ def compare(A, B, states, times=(0.0,), vols=(1.0, 2.5), check_rules=True, seed=
         if p not in pb:
             out.append((("parameter_missing",), {"parameter": p}))
             return out
-        if not _close(float(pa[p]), float(pb[p])):
+        if not _close_rel(float(pa[p]), float(pb[p])):
             out.append((("parameter_value",), {"parameter": p, "a": float(pa[p]), "b": float(pb[p])}))
             return out
     for p in pb:
